@@ -16,3 +16,17 @@ mod c04;
 mod c14;
 #[cfg(kani)]
 mod c15;
+#[cfg(kani)]
+mod c05;
+#[cfg(kani)]
+mod c16;
+#[cfg(kani)]
+mod c12;
+#[cfg(kani)]
+mod c09;
+#[cfg(kani)]
+mod c10;
+#[cfg(kani)]
+mod c11;
+#[cfg(kani)]
+mod c13;
